@@ -274,6 +274,47 @@ def coords_history(case, ctx):
                 raise Violation("C12.history.remove", f"step {i}: an OPD made only of modes {modes} is not removed")
 
 
+# --- long mode lists in unusual orders --------------------------------------------------------------------------------
+
+@hyp("C12", "many_modes", lambda tier: st.fixed_dictionaries(
+        {"J": st.integers(60, 160), "order": st.sampled_from(["cos_then_sin", "cos_then_sin", "reversed", "by_azimuth", "shuffled"]),
+         "n": st.integers(20, 34), "normalize": st.booleans(), "seed": st.integers(0, 2**31 - 1), "custom": st.booleans()}),
+     "zernike_basis for 60..160 modes listed in an unusual order (all cosine terms, then all sine terms; reversed; grouped "
+     "by azimuthal order; shuffled): slice k of the basis is mode modes[k], whatever came before it in the list",
+     examples=(40, 150), budget_s=(150, 600))
+def many_modes(case, ctx):
+    n = case["n"]
+    yy, xx = np.mgrid[0:n, 0:n]
+    mask = ((yy - n / 2 + 0.5) ** 2 + (xx - n / 2 + 0.5) ** 2 <= (n / 2 - 0.5) ** 2).astype(int)
+    J = case["J"]
+    js = list(range(1, J + 1))
+    rng = np.random.default_rng(case["seed"])
+    if case["order"] == "cos_then_sin":
+        modes = [j for j in js if j % 2 == 0] + [j for j in js if j % 2 == 1]
+    elif case["order"] == "reversed":
+        modes = js[::-1]
+    elif case["order"] == "by_azimuth":
+        modes = sorted(js, key=lambda j: (j * 2654435761) % 97)
+    else:
+        modes = [int(v) for v in rng.permutation(js)]
+    kw = {}
+    if case["custom"]:
+        rho, theta = lentil.zernike_coordinates(mask, shift=(0.4, -0.3), rotate=20.0)
+        kw = {"rho": rho, "theta": theta}
+    ctx.tag("order:" + case["order"], f"modes:{'<=100' if J <= 100 else '>100'}", "custom_coords" if kw else "default_coords")
+    ctx.nontrivial_if(True)
+    with lentil_call("C12.many_modes", f"zernike_basis({len(modes)} modes, {case['order']})"):
+        B = np.asarray(lentil.zernike_basis(mask, modes, normalize=case["normalize"], **kw), dtype=float)
+    if B.shape != (len(modes),) + mask.shape:
+        raise Violation("C12.many_modes.shape", f"basis of shape {B.shape} for {len(modes)} modes on a {mask.shape} mask")
+    for k, j in enumerate(modes):
+        with lentil_call("C12.many_modes", f"zernike(mask, {j})"):
+            z = np.asarray(lentil.zernike(mask, int(j), normalize=case["normalize"], **kw), dtype=float)
+        if np.max(np.abs(B[k] - z)) > 1e-12 * (1.0 + float(np.max(np.abs(z)))):
+            raise Violation("C12.many_modes.slice", f"zernike_basis({len(modes)} modes in {case['order']} order): slice {k} is not mode "
+                                                    f"{j} (max difference {np.max(np.abs(B[k] - z)):.3e})")
+
+
 # --- history: different masks fitted one after another ------------------------------------------------------------
 
 MASK_RELATIONS = ["same", "reshape", "reshape", "transpose", "flip", "erode", "dilate", "full", "full_T", "top_rows", "values"]
